@@ -3,14 +3,15 @@ CONSTANTS
   MaxK = 8
   GenHist = FALSE
   KSet = {0}
-  NA = 6
-  NL = 8
-  NS = 6
-  NK = 4
-  Strategies = {0}
-  Adaptive = {0}
+  NA = 3
+  NL = 4
+  NS = 3
+  NK = 2
+  Strategies = {0, 1, 2, 3, 4, 5, 6}
+  WKinds = {"off", "valid", "tight", "equal", "reversed", "zero", "bothzero", "negative", "nan10", "nan90", "inf90", "neginf10"}
+  WinMode = "full"
 INIT TInit
 NEXT TNext
-INVARIANTS ConfFilter ConfInterval ConfDraw ObsValid ObsWeights ObsLattice ObsRange
+INVARIANTS ConfFilter ConfInterval ConfDraw ObsValid ObsWeights ObsRange ObsFallback ObsLattice ObsRealDraw
 POSTCONDITION Post
 CHECK_DEADLOCK FALSE
